@@ -119,7 +119,7 @@ for _p in ("C01", "C02", "C16"):
     PROPS[_p]["rule"] += (" Request verbs include WebSocket handshakes (GET + Upgrade: websocket = the custom kind WEBSOCKET; soundness only: the "
                           "recorder cannot be hijacked); rule sets include sibling variables whose patterns open with literals that are prefixes of "
                           "one another up to '-' / '.'.")
-PROPS["C15"]["rule"] += " C15T <hex> p: every fifth case also on a mux whose method is served by a grpc-go backend behind RegisterConn (the deadline the backend handler runs under). C15T <hex> x: eight values on a gRPC-web-text request whose body arrives 400 ms after the request (the deadline must lie within 200 ms of receipt + T). C15C httpz: a client that goes away behind a chunked, gzip-encoded plain HTTP body."
+PROPS["C15"]["rule"] += " C15T <hex> p: every fifth case also on a mux whose method is served by a grpc-go backend behind RegisterConn (the deadline the backend handler runs under). C15T <hex> x: eight values on a gRPC-web-text request whose body arrives 400 ms after the request (the deadline must lie within 300 ms of receipt + T). C15C httpz: a client that goes away behind a chunked, gzip-encoded plain HTTP body."
 PROPS["C14"]["rule"] += (" The stats-handler variant (+s) redacts its own view of the request header (InHeader.Header); a method Down is written through "
                           "larking.AsHTTPBodyWriter (proto bodywriter: no trailers on the wire); trailer values carrying CR / LF must arrive sanitised or not at all.")
 PROPS["C15"]["rule"] += " C15E <d>: the grpc-timeout header a grpc-go client writes for a context with d ns left (around every change of unit, round values, log-uniform above 2 s), recorded by a cleartext HTTP/2 server; the model TimeoutForward.encode_duration must write the same (value, unit) for value x unit, and value x unit must lie in [d - 2 s, d + one unit]."
